@@ -46,6 +46,8 @@ CONTRACTS = {
                 'fw_col_mapping': 'FwMap', 'table_header': 'list[str]'},
         may_raise=['NotImplementedError'],
         returns='list[str]',
+        function_symbol='fn_generic_line_parser',
+        function_args=['line_string', 'delimiter', 'args.data_source', 'fw_col_mapping', 'table_header'],
         call_ghosts={},
         ensures=[
             ('csv_sources', 'implies(args.data_source == "ob-csv" or args.data_source == "csv-raw", same_seq(result, csv_parse(line_string)))'),
